@@ -14,7 +14,7 @@ TECHNIQUE = 'runtime monitoring: append-only / monotonicity checker over before/
 LEVEL = "exploration"
 RULE = (
     "case = sequence of 2-14 create / create -sf runs (exit 0/10/11) interleaved with tree edits, flat or nested, frozen clock "
-    "(several runs in the same second) or advancing clock, random time zone; class = (nesting, sequence length bucket, exit "
+    "(several runs in the same second) or advancing clock, random time zone; orphan manifests (run died before the chain was replaced), equally named nested histories, histories renumbered to 9997.., folder names of 223-227 bytes; class = (nesting, sequence length bucket, exit "
     "codes seen, same-second, zone sign, crossed generation 9->10)"
 )
 ASSUMPTIONS = ["<= 14 generations per history; file-name time compared with the injected clock (datetime.now(timezone.utc))"]
